@@ -75,7 +75,7 @@ func init() {
 	})
 	register(&Prop{
 		ID:    "C03",
-		Rules: []func(*core.Ctx){ROrigin, RMode, RMinLen, RRtlFilter, RFixedDistSib, RTableDom, RLmMin, RDirTrunc, RSentinel, RBumpWalk, RDeadCopy, RFwdOnly, RCaseBit, RLmAlt, RFailProp, RMinLenZero, RCiExact, RNoMatchExit, RLmStart, RGapKind},
+		Rules: []func(*core.Ctx){ROrigin, RMode, RMinLen, RRtlFilter, RFixedDistSib, RTableDom, RLmMin, RDirTrunc, RSentinel, RBumpWalk, RDeadCopy, RFwdOnly, RCaseBit, RLmAlt, RFailProp, RMinLenZero, RCiExact, RNoMatchExit, RLmStart, RGapKind, RSearchStep},
 		Explanation: "R-ORIGIN (a candidate proposed by the accelerator never becomes the \\G origin: interprocedural taint from the filter result to scan's textstart), R-MODE (producer/consumer agreement on the find-mode record: every field a finder arm reads is assigned before the mode is set; accepted modes have a finder), R-MINLEN (the minimum-length fact is used only as a bound on the remaining length), R-RTLFILTER, R-TABLEDOM (every entry the Boyer-Moore builder records is within reach of the scanner's lookups: writer/reader guard agreement), R-LMMIN (the landmark-chain search continues from the minimal, not the greedy, end of a landmark). " +
 			"Structural conditions for the accelerator to be a pure accelerator. The arithmetic of each finder and the truth of the facts (C04) are NOT decided.",
 	})
@@ -135,7 +135,7 @@ func init() {
 	})
 	register(&Prop{
 		ID:    "C09",
-		Rules: []func(*core.Ctx){RRepConst, RRepCases, RRepID, RFoldExit, RCommitPos, RCompact, RLoopMatch, rDirFoldOnly, RSlot, RCapsKey, RCachePair, RCompactSib, RFoldSrc, RWholeText, RErrProp, RSplitStride},
+		Rules: []func(*core.Ctx){RRepConst, RRepCases, RRepID, RFoldExit, RCommitPos, RCompact, RLoopMatch, rDirFoldOnly, RSlot, RCapsKey, RCachePair, RCompactSib, RFoldSrc, RWholeText, RErrProp, RSplitStride, RRewindFirst},
 		Explanation: "R-REPCONST (encoder and decoder of replacement rules are the same affine map over equal constants), R-REPCASES (every special token has an arm in both expansion functions; the right-to-left expansion collects pieces last-to-first), R-COMPACT (balancing compaction precedes every expansion of the reused match; count discipline of the replace loops), R-DIRFOLD (Split and the replace drivers are direction-aware), R-SLOT (group numbers reach slots through the maps, including inside Split). " +
 			"That the pieces are concatenated with the right text in between, $-grammar ambiguities and identity of $& are NOT decided.",
 	})
